@@ -5,6 +5,16 @@ import time
 import z3
 
 
+def _has_quantifier(f, _seen=None):
+    if z3.is_quantifier(f):
+        return True
+    _seen = _seen if _seen is not None else set()
+    if f.get_id() in _seen:
+        return False
+    _seen.add(f.get_id())
+    return any(_has_quantifier(c, _seen) for c in f.children())
+
+
 class Unsupported(Exception):
     """Construct outside the supported subset -> undecided (exit 2), never a violation."""
 
@@ -131,7 +141,7 @@ class Path:
     def assume_checked(self, f):
         """assume and end the path if it became infeasible."""
         self.assume(f)
-        r, _, _ = self.solver.check(self.pc)
+        r, _, _ = self.solver.check([g for g in self.pc if not _has_quantifier(g)])
         if r == z3.unsat:
             raise PathEnd("infeasible")
 
@@ -144,7 +154,9 @@ class Path:
             self._learn(f.arg(0), not val)
 
     def feasible(self, f):
-        r, _, _ = self.solver.check(self.pc + [f])
+        # quantified conjuncts are dropped for feasibility: an over-approximation (more paths, never fewer)
+        qf = [g for g in self.pc if not _has_quantifier(g)]
+        r, _, _ = self.solver.check(qf + [f])
         return r != z3.unsat
 
     # -- forking --------------------------------------------------------
@@ -238,7 +250,8 @@ class Path:
         """Reachability cover: recorded only if the path condition is satisfiable here (vacuity guard)."""
         if name in self.covers:
             return
-        r, _, _ = self.solver.check(self.pc)
+        qf = [f for f in self.pc if not _has_quantifier(f)]
+        r, _, _ = self.solver.check(qf)
         if r == z3.sat:
             self.covers.add(name)
 
